@@ -255,29 +255,52 @@ def exchange_hash(kex, wire, K):
     return hashlib.new(KEX_HASH[kex], b).digest()
 
 
-# ----------------------------------------------------------------------------- plaintext man in the middle
+# ----------------------------------------------------------------------------- altering the server's reply
 
-def other_hostkey_blob(alg):
-    """public blob of ANOTHER valid host key of the same type (the attacker's key; private half irrelevant here)"""
+_other = {}          # base algorithm -> (public blob, private key object of `cryptography`) of an unrelated key
+
+
+def _other_key(alg):
     alg = base_alg(alg)
     if alg not in _other:
         if alg in RSA_HASH:
-            k = paramiko.RSAKey(key=rsa.generate_private_key(65537, 2048))
+            priv = rsa.generate_private_key(65537, 2048)
+            blob = paramiko.RSAKey(key=priv).asbytes()
             for a in RSA_ALGS:
-                _other[a] = k.asbytes()
+                _other[a] = (blob, priv)
         elif alg.startswith("ecdsa"):
             curve = EC_CURVES[alg[len("ecdsa-sha2-"):]][0]
-            _other[alg] = paramiko.ECDSAKey.generate(curve=curve()).asbytes()
+            k = paramiko.ECDSAKey.generate(curve=curve())
+            _other[alg] = (k.asbytes(), k.signing_key)
         else:
-            pub = ed25519.Ed25519PrivateKey.generate().public_key().public_bytes(
-                serialization.Encoding.Raw, serialization.PublicFormat.Raw)
-            _other[alg] = w_string("ssh-ed25519") + w_string(pub)
+            priv = ed25519.Ed25519PrivateKey.generate()
+            pub = priv.public_key().public_bytes(serialization.Encoding.Raw, serialization.PublicFormat.Raw)
+            _other[alg] = (w_string("ssh-ed25519") + w_string(pub), priv)
     return _other[alg]
 
 
-_other = {}
+def other_hostkey_blob(alg):
+    """public blob of ANOTHER valid host key of the same type (an unrelated key pair)"""
+    return _other_key(alg)[0]
 
-ALTERATIONS = ["none", "hostkey_swap", "hostkey_bits", "pub", "pub_valid", "sig_bits", "sig_alg", "gex_p", "gex_g"]
+
+def other_key_signature(alg, data):
+    """a well-formed signature blob over data with algorithm alg, made by the unrelated key (cryptography only)"""
+    from cryptography.hazmat.primitives.asymmetric.utils import decode_dss_signature
+    alg = base_alg(alg)
+    priv = _other_key(alg)[1]
+    if alg in RSA_HASH:
+        raw = priv.sign(data, padding.PKCS1v15(), RSA_HASH[alg]())
+    elif alg.startswith("ecdsa"):
+        r, s_ = decode_dss_signature(priv.sign(data, ec.ECDSA(EC_CURVES[alg[len("ecdsa-sha2-"):]][1]())))
+        raw = w_mpint(r) + w_mpint(s_)
+    else:
+        raw = priv.sign(data)
+    return w_string(alg) + w_string(raw)
+
+
+ALTERATIONS = ["none", "hostkey_swap", "hostkey_bits", "pub", "pub_valid", "sig_bits", "sig_alg", "sig_other_data",
+               "sig_other_key", "gex_p", "gex_g"]
 SIG_ALG_SWAP = {"ssh-rsa": "rsa-sha2-256", "rsa-sha2-256": "rsa-sha2-512", "rsa-sha2-512": "ssh-rsa",
                 "ecdsa-sha2-nistp256": "ecdsa-sha2-nistp384", "ecdsa-sha2-nistp384": "ecdsa-sha2-nistp521",
                 "ecdsa-sha2-nistp521": "ecdsa-sha2-nistp256", "ssh-ed25519": "ssh-rsa"}
@@ -294,16 +317,21 @@ def applicable(alter, kex):
 
 
 class Mitm:
-    """link filter: records the plaintext first exchange as the CLIENT sees it and applies at most one edit.
-    `alter` = name in ALTERATIONS (the server's reply / gex group as delivered to the client), or a callable
-    edit(mitm, src, ptype, payload) -> new payload | None used by the C08 driver."""
-    def __init__(self, kex, hostalg, alter="none", rnd=None):
-        self.kex, self.fam, self.hostalg, self.alter, self.rnd = kex, KEX_FAMILY[kex], hostalg, alter, rnd
+    """Alters at most one field of the server's key-exchange reply, in exchange number `at` (0 = first).
+    Exchange 0 is in clear: the object is the link filter, i.e. a man in the middle on the wire; it also records
+    the first exchange as the CLIENT sees it.  Re-exchanges are encrypted, so for at >= 1 the same edit is applied
+    at the source, in the server Transport's _send_message (CorruptingServer) - the harness owns the server.
+    `alter` = name in ALTERATIONS, or a callable edit(mitm, src, ptype, payload) -> new payload | None (C08)."""
+    def __init__(self, kex, hostalg, alter="none", rnd=None, at=0):
+        self.kex, self.fam, self.hostalg, self.alter, self.rnd, self.at = kex, KEX_FAMILY[kex], hostalg, alter, rnd, at
         self.wire = {}
         self.encrypted = {"a": False, "b": False}
         self.applied = None           # (field, old, new) when an edit was made
         self.sent_types = {"a": [], "b": []}      # plaintext packet types sent by each side (before its NEWKEYS)
         self.reply_type = 33 if self.fam == "gex" else 31
+        self.exchange = 0             # index of the exchange whose reply has not passed yet
+        self.server = None            # the server Transport (for H and the real host key), set by run_kex
+        self.cur = {}                 # group of the exchange in progress (gex)
 
     def __call__(self, link, src, n, data):
         if data[:4] == b"SSH-":
@@ -324,9 +352,15 @@ class Mitm:
             return [ns.plain_packet(new)]
         return None
 
+    def at_source(self, ptype, payload):
+        """called by CorruptingServer for the kex messages of re-exchanges (after the server's first NEWKEYS)"""
+        if not self.encrypted["b"] or callable(self.alter):
+            return None
+        return self.edit("b", ptype, payload)
+
     # -- recording + the single edit
     def edit(self, src, ptype, payload):
-        w = self.wire
+        w = self.wire if self.exchange == 0 else {}
         if ptype == MSG_KEXINIT:
             w["ic" if src == "a" else "is_"] = payload
             return None
@@ -341,22 +375,24 @@ class Mitm:
             elif ptype == 30:
                 w["qc"] = r.string()
             return None
+        now = self.exchange == self.at and self.applied is None
         if self.fam == "gex" and ptype == 31:
             p, g = r.mpint(), r.mpint()
-            if self.alter == "gex_p":
+            if self.alter == "gex_p" and now:
                 newp = P1536 if p != P1536 else dh_prime("diffie-hellman-group14-sha1")
                 self.applied = ("gex_p", p.bit_length(), newp.bit_length())
                 p = newp
-            elif self.alter == "gex_g":
+            elif self.alter == "gex_g" and now:
                 self.applied = ("gex_g", g, g + 1)
                 g = g + 1
             w["p"], w["g"] = p, g
+            self.cur = {"p": p, "g": g}
             return bytes([31]) + w_mpint(p) + w_mpint(g)
         if ptype == self.reply_type:
             ks = r.string()
             pub = r.mpint() if self.fam in ("dh", "gex") else r.string()
             sig = r.string()
-            a = self.alter
+            a = self.alter if now else "none"
             if a == "hostkey_swap":
                 new = other_hostkey_blob(self.hostalg)
                 self.applied, ks = (a, len(ks), len(new)), new
@@ -369,22 +405,30 @@ class Mitm:
                 else:
                     new = self.other_point(pub)
                 self.applied, pub = (a, "v", "v'"), new
-            elif a == "pub_valid":          # the attacker's own well-formed public value
+            elif a == "pub_valid":          # another well-formed public value
                 new = self.attacker_pub()
                 self.applied, pub = (a, "server", "attacker"), new
             elif a in ("sig_bits", "sig_alg"):
                 s = Rd(sig)
                 name, blob = s.string(), s.string()
                 if a == "sig_bits":
-                    at = -1
-                    if name.startswith(b"ecdsa"):      # blob = mpint r, mpint s: change the value of s
-                        at = -1
-                    new = flip_low_bit(blob, at)
-                    self.applied, blob = (a, blob[at], new[at]), new
+                    new = flip_low_bit(blob)          # last byte: RSA / Ed25519 signature value, ECDSA: the value of s
+                    self.applied, blob = (a, blob[-1], new[-1]), new
                 else:
                     new = SIG_ALG_SWAP[name.decode()].encode()
                     self.applied, name = (a, name.decode(), new.decode()), new
                 sig = w_string(name) + w_string(blob)
+            elif a == "sig_other_data":     # a genuine signature by the server's key, but not over the exchange hash
+                t = self.server
+                new = t.get_server_key().sign_ssh_data(hashlib.sha256(b"verif:not the exchange hash").digest() + bytes(t.H),
+                                                       t.host_key_type)
+                new = new.asbytes() if hasattr(new, "asbytes") else bytes(new)
+                self.applied, sig = (a, len(sig), len(new)), new
+            elif a == "sig_other_key":      # a well-formed signature over the right hash by an unrelated key
+                t = self.server
+                new = other_key_signature(t.host_key_type, bytes(t.H))
+                self.applied, sig = (a, len(sig), len(new)), new
+            self.exchange += 1
             w["ks"], w["sig"] = ks, sig
             if self.fam in ("dh", "gex"):
                 w["f"] = pub
@@ -394,11 +438,11 @@ class Mitm:
         return None
 
     def group_p(self):
-        return self.wire["p"] if self.fam == "gex" else dh_prime(self.kex)
+        return self.cur["p"] if self.fam == "gex" else dh_prime(self.kex)
 
     def attacker_pub(self):
         if self.fam in ("dh", "gex"):
-            g = self.wire["g"] if self.fam == "gex" else 2
+            g = self.cur["g"] if self.fam == "gex" else 2
             return pow(g, int.from_bytes(os.urandom(32), "big") | 1 << 200, self.group_p())
         if self.fam == "ecdh":
             curve = EC_CURVES[KEX_CURVE[self.kex]][0]
@@ -411,6 +455,22 @@ class Mitm:
         if self.fam == "ecdh":
             return self.attacker_pub()      # any other value that still parses; a flipped bit would be off-curve (C08)
         return flip_low_bit(pub, 0)         # X25519: every 32-byte string is accepted as a u-coordinate
+
+
+class CorruptingServer(KTransport):
+    """server Transport whose outgoing key-exchange messages of RE-exchanges pass through the Mitm (fault at the
+    source: the packets are encrypted on the wire)"""
+    mitm = None
+
+    def _send_message(self, data):
+        m = self.mitm
+        if m is not None and self.kex_engine is not None:
+            payload = data.asbytes()
+            if payload and 30 <= payload[0] <= 49:
+                new = m.at_source(payload[0], payload)
+                if new is not None and new != payload:
+                    data = Message(new)
+        super()._send_message(data)
 
 
 def kex_record(s, mitm, rekeys_done, client_ok, server_ok):
@@ -443,14 +503,14 @@ def kex_record(s, mitm, rekeys_done, client_ok, server_ok):
               "shown": I(("key", v[1])) if v else 0,
               "sigok": bool(c and v and verify_independent(c[4], v[1], v[2], c[2])),
               "hstruct": True}
-        if i == 0 and c and v and "ks" in mitm.wire:
+        if i == 0 and c and v and "ks" in mitm.wire and not callable(mitm.alter):
             try:
                 ex["hstruct"] = exchange_hash(s.kex, mitm.wire, c[1]) == c[2]
             except KeyError:
                 ex["hstruct"] = False
         exchanges.append(ex)
     return {"kex": s.kex, "hostalg": s.hostalg, "alter": mitm.alter if isinstance(mitm.alter, str) else "custom",
-            "applied": mitm.applied is not None, "rekeys": rekeys_done,
+            "applied": mitm.applied is not None, "alter_at": mitm.at, "rekeys": rekeys_done,
             "client_ok": bool(client_ok), "server_ok": bool(server_ok),
             "client_active": bool(s.tc.is_active()),
             "real": I(("key", real.asbytes())) if real is not None else 0,
@@ -459,11 +519,14 @@ def kex_record(s, mitm, rekeys_done, client_ok, server_ok):
             "errors": {k: "%s: %s" % (type(v).__name__, str(v)[:120]) for k, v in s.errors.items()}}
 
 
-def run_kex(kex, hostalg, alter="none", rekeys=0, rnd=None, traffic=True):
-    """one real session: first exchange under the MITM (one alteration at most), then `rekeys` honest
-    re-exchanges (alternately initiated by client and server) with a little channel traffic in between"""
-    m = Mitm(kex, hostalg, alter, rnd)
-    s = KSession(kex=kex, hostalg=hostalg, link=ns.Link(m))
+def run_kex(kex, hostalg, alter="none", rekeys=0, rnd=None, traffic=True, at=0):
+    """one real session: the first exchange and `rekeys` re-exchanges (alternately initiated by client and server,
+    a little channel traffic in between); in exchange number `at` one field of the server's reply is altered
+    (at = 0: on the wire, at >= 1: at the server end); the session is driven until exchange `at` has been tried"""
+    m = Mitm(kex, hostalg, alter, rnd, at=at)
+    s = KSession(kex=kex, hostalg=hostalg, link=ns.Link(m), server_cls=CorruptingServer)
+    s.ts.mitm = m
+    m.server = s.ts
     done = 0
     try:
         okc, oks = s.start()
@@ -473,17 +536,32 @@ def run_kex(kex, hostalg, alter="none", rekeys=0, rnd=None, traffic=True):
             for i in range(rekeys):
                 who = s.tc if i % 2 == 0 else s.ts
                 n0 = len(s.tc.events("newkeys_in")), len(s.ts.events("newkeys_in"))
-                who.renegotiate_keys()
+                try:
+                    who.renegotiate_keys()
+                except Exception as e:         # the exchange was refused: the transports are going down
+                    s.errors.setdefault("rekey", e)
+                    break
                 end = time.time() + 10
-                while time.time() < end and (len(s.tc.events("newkeys_in")) == n0[0] or len(s.ts.events("newkeys_in")) == n0[1]):
+                while time.time() < end and s.tc.is_active() and s.ts.is_active() and (
+                        len(s.tc.events("newkeys_in")) == n0[0] or len(s.ts.events("newkeys_in")) == n0[1]):
                     time.sleep(0.002)
+                if not (s.tc.is_active() and s.ts.is_active()):
+                    break
                 if traffic:
-                    ch.send(b"x" * 17)
-                    if sch.recv(17) != b"x" * 17:
+                    try:
+                        ch.send(b"x" * 17)
+                        if sch.recv(17) != b"x" * 17:
+                            break
+                    except Exception as e:
+                        s.errors.setdefault("traffic", e)
                         break
                 done += 1
-        if not (okc and oks):
+        if not (okc and oks) or done < rekeys:
             s.quiesce()
+            for who, t in (("client", s.tc), ("server", s.ts)):
+                e = getattr(t, "saved_exception", None)
+                if e is not None and who not in s.errors:
+                    s.errors[who] = e
         return kex_record(s, m, done, okc, oks)
     finally:
         s.close()
